@@ -39,6 +39,12 @@ claimed = {
  "C11": ("model_checking", "explicit-state BFS of a real FdlActiveStation against an adversarial peer with a token hand-over monitor automaton",
    "BFS from four base situations (listening, two- and three-station ring, alone with the token) for TS in {3,0,HSA-1} and two poll grids over an alphabet of tokens between predecessor/successor/stranger/own/invalid addresses, status traffic, SC, a garbage byte and three silence lengths; the monitor justifies every initiated transmission (token from the registered predecessor, second offer, own claim), and checks the pass supervision (repeat only after a silent slot, at most two repeats, then removal; none after something was heard).",
    "Monitor leniencies documented in DESIGN 6 C11 (burst subtleties, undecodable bytes after a pass, claim timing belongs to C01).", "6 C11"),
+ "C01": ("model_checking", "exhaustive enumeration of ring configurations x poll schedules (default + every placement of one poll stall) on real stations over a byte-accurate bus, with a trace monitor",
+   "Every configuration of the small-scope domain (2..5 stations incl. adjacent, wrap-around, HSA-1, address 0; HSA, gap factor, baud, slot time, per-station poll period/phase patterns, application loads, late joiners at several offsets) is executed to the horizon on real FdlActiveStations over BusSim; on selected configurations every placement of a Tslot/4 poll stall at every effective poll is explored by forking the cloned world. The trace monitor checks R1 no overlap, R2 idle times (33 bit / 11 bit, 1 us tolerance) and R3 permission to transmit (holder, own retry after a silent slot, reply to a request addressed to the sender, claim after the own time-out).",
+   "Excluded per DESIGN 5.3: unsynchronised cold-start claim race, stale PHY buffers. Schedules are grid-based with <=1 stall; BusSim is the timing reference.", "6 C01"),
+ "C02": ("model_checking", "same execution space as C01 with a convergence/stability oracle, plus complete closure of the LAS bookkeeping state space with a from-anywhere differential oracle",
+   "(a) every configuration/schedule of the C01 space without loads: by the bound T_conv of DESIGN 5.4 every online station is in the ring, every LAS equals the online set, NS/PS are the cyclic neighbours, tokens circulate in ascending order without repeats, and this stays true over the stability window (sampled every 3 slot times). (b) the real TokenRing type is closed under all witness/claim/set/remove operations over an 8-address universe for TS in {0,2,5} (672 states); neighbours invariant in every state, invalid addresses never change the state, and from EVERY reachable state three rotations of any of the 32 rings converge to exactly that ring.",
+   "T_conv is a generous bound; the largest observed/bound ratio is reported in the evidence.", "6 C02"),
 }
 not_applicable_reasons = {}
 
